@@ -25,26 +25,27 @@ Print Assumptions cy_conforming.
 
 (* ---------------------------------------------------------------- 1. codec level round trip *)
 (* [raster data w h depth]: depth in {1,8,16,32}, 0 <= w, 0 <= h, data = h rows of (w*depth+7)/8 bytes.
-   [codec_guard]: RLE needs 0 < w or h = 0; ZIP with prediction needs depth <> 1 and (depth = 32 -> 0 < w). *)
+   [codec_guard c depth]: only "ZIP with prediction needs depth <> 1"; no condition on the size
+   (the width guard of finding F-C04-2 went away with its repair, commit 992c68e). *)
 Theorem roundtrip : forall zc zd, zlib_law zc zd -> forall rdec, conforming_decoder rdec ->
   forall c data w h depth version e,
-  raster data w h depth -> codec_guard c w h depth ->
+  raster data w h depth -> codec_guard c depth ->
   compress zc c data w h depth version = Ok e ->
   decompress zd rdec c e w h depth version = Ok data.
 Proof. exact ProofsCodec.roundtrip. Qed.
 Print Assumptions roundtrip.
 Example roundtrip_hyp :
-  raster [1; 2; 3; 4; 5; 6; 7; 8; 9; 10; 11; 12] 3 2 16 /\ codec_guard ZIPP 3 2 16 /\
+  raster [1; 2; 3; 4; 5; 6; 7; 8; 9; 10; 11; 12] 3 2 16 /\ codec_guard ZIPP 16 /\
   compress zid ZIPP [1; 2; 3; 4; 5; 6; 7; 8; 9; 10; 11; 12] 3 2 16 1 = Ok [1; 2; 2; 2; 2; 2; 7; 8; 2; 2; 2; 2].
 Proof.
-  split; [|split; [split; [discriminate|discriminate]|reflexivity]].
+  split; [|split; [discriminate|reflexivity]].
   split; [right; right; left; reflexivity|]. split; [lia|]. split; [lia|].
   split; [apply bytes_dec|]; reflexivity.
 Qed.
 
 (* compress does return a stream, unless an RLE row is too long for the row table of the file version *)
 Theorem compress_ok : forall zc c data w h depth version,
-  raster data w h depth -> codec_guard c w h depth ->
+  raster data w h depth -> codec_guard c depth ->
   (c = RLE -> 128 * row_size w depth + 126 < 127 * cmax version) ->
   exists e, compress zc c data w h depth version = Ok e.
 Proof. exact ProofsCodec.compress_ok. Qed.
@@ -70,25 +71,23 @@ Proof.
 Qed.
 Print Assumptions compress_rle_v1_overflow.
 
-(* full strength is false of the faithful model: a raster of width 0 (finding F-C04-2) *)
-Theorem roundtrip_rle_zero_width_refuted : exists data w h depth version e,
-  raster data w h depth /\ compress zid RLE data w h depth version = Ok e /\
-  decompress zsome py_decode RLE e w h depth version = Err ValueErr /\
-  decompress zsome cy_decode RLE e w h depth version = Err ValueErr.
+(* the repaired defect F-C04-2 (commit 992c68e): rasters of width 0, which the code used to reject
+   (decode_rle asked for max(row_size,1) bytes per row; range(.., .., 0) in the 32-bit shuffle) *)
+Example roundtrip_zero_width_rle :
+  raster [] 0 2 8 /\ compress zid RLE [] 0 2 8 1 = Ok [0; 0; 0; 0] /\
+  decompress zsome py_decode RLE [0; 0; 0; 0] 0 2 8 1 = Ok [] /\
+  decompress zsome cy_decode RLE [0; 0; 0; 0] 0 2 8 1 = Ok [].
 Proof.
-  exists [], 0, 2, 8, 1, [0; 0; 0; 0].
   split; [|split; [|split]]; try (vm_compute; reflexivity).
   split; [right; left; reflexivity|]. split; [lia|]. split; [lia|]. split; [constructor|reflexivity].
 Qed.
-Print Assumptions roundtrip_rle_zero_width_refuted.
-
-Theorem roundtrip_zipp32_zero_width_refuted : exists data w h depth version,
-  raster data w h depth /\ compress zid ZIPP data w h depth version = Err ValueErr.
+Example roundtrip_zero_width_zipp32 :
+  raster [] 0 3 32 /\ compress zid ZIPP [] 0 3 32 1 = Ok [] /\
+  decompress zsome cy_decode ZIPP [] 0 3 32 1 = Ok [].
 Proof.
-  exists [], 0, 0, 32, 1. split; [|vm_compute; reflexivity].
+  split; [|split]; try (vm_compute; reflexivity).
   split; [right; right; right; reflexivity|]. split; [lia|]. split; [lia|]. split; [constructor|reflexivity].
 Qed.
-Print Assumptions roundtrip_zipp32_zero_width_refuted.
 
 (* ZIP with prediction has no 1-bit form: rejected with ValueError whatever the raster *)
 Theorem zipp_1bit_rejected : forall zc data w h version, compress zc ZIPP data w h 1 version = Err ValueErr.
@@ -97,10 +96,10 @@ Print Assumptions zipp_1bit_rejected.
 
 (* the repaired defect F-C04-1 (1-bit rows whose width is not a multiple of 8): 10 x 2 pixels, 2 bytes per row *)
 Example roundtrip_1bit_10x2 :
-  raster [255; 192; 170; 128] 10 2 1 /\ codec_guard RLE 10 2 1 /\
+  raster [255; 192; 170; 128] 10 2 1 /\ codec_guard RLE 1 /\
   compress zid RLE [255; 192; 170; 128] 10 2 1 1 = Ok [0; 3; 0; 3; 1; 255; 192; 1; 170; 128].
 Proof.
-  split; [|split; [left; lia|reflexivity]].
+  split; [|split; [exact I|reflexivity]].
   split; [left; reflexivity|]. split; [lia|]. split; [lia|]. split; [apply bytes_dec|]; reflexivity.
 Qed.
 
@@ -132,7 +131,7 @@ Qed.
 (* prediction: decode_prediction inverts the per-row difference coding of the format description
    (big-endian words mod 2^depth; 32 bits: four byte planes per row, then bytewise differences) *)
 Theorem prediction_roundtrip : forall data w h depth,
-  (depth = 8 \/ depth = 16 \/ depth = 32) -> 0 <= w -> 0 <= h -> (depth = 32 -> 0 < w) ->
+  (depth = 8 \/ depth = 16 \/ depth = 32) -> 0 <= w -> 0 <= h ->
   bytes data -> len data = w * h * (depth / 8) ->
   exists e, encode_prediction data w h depth = Ok e /\ len e = len data /\
             decode_prediction e w h depth = Ok data.
@@ -175,7 +174,7 @@ Print Assumptions delta_decode_loop_form.
 (* ---------------------------------------------------------------- 4. containers, with their own geometry *)
 Theorem channel_data_roundtrip : forall zc zd, zlib_law zc zd -> forall rdec, conforming_decoder rdec ->
   forall cd cd' data w h depth version,
-  raster data w h depth -> codec_guard (cd_comp cd) w h depth ->
+  raster data w h depth -> codec_guard (cd_comp cd) depth ->
   cd_set_data zc cd data w h depth version = Ok cd' ->
   cd_get_data zd rdec cd' w h depth version = Ok data.
 Proof. exact ProofsCodec.channel_data_roundtrip. Qed.
@@ -187,7 +186,7 @@ Theorem image_data_roundtrip : forall zc zd, zlib_law zc zd -> forall rdec, conf
   depth_ok depth -> 0 <= w -> 0 <= h -> 0 < ch ->
   Z.of_nat (length planes) = ch ->
   Forall bytes planes -> Forall (fun p => len p = h * row_size w depth) planes ->
-  codec_guard c w (h * ch) depth ->
+  codec_guard c depth ->
   id_set_data zc c planes hd = Ok e ->
   id_get_data zd rdec c e hd = Ok planes.
 Proof. exact ProofsCodec.image_data_roundtrip. Qed.
@@ -202,7 +201,7 @@ Proof. cbv zeta. split; [repeat constructor|]. split; vm_compute; reflexivity. Q
 
 Theorem vma_roundtrip : forall zc zd, zlib_law zc zd -> forall rdec, conforming_decoder rdec ->
   forall c data w h depth v,
-  raster data w h depth -> codec_guard c w h depth ->
+  raster data w h depth -> codec_guard c depth ->
   vm_set_data zc (w, h) data depth c = Ok v ->
   vm_get_data zd rdec v = Some (Ok data).
 Proof. exact ProofsCodec.vma_roundtrip. Qed.
